@@ -5368,7 +5368,7 @@ class SupplementaryService:
         AvpGenDef("number_of_participants", AVP_TGPP_NUMBER_OF_PARTICIPANTS, VENDOR_TGPP),
         AvpGenDef("participant_action_type", AVP_TGPP_PARTICIPANT_ACTION_TYPE, VENDOR_TGPP),
         AvpGenDef("cug_information", AVP_TGPP_CUG_INFORMATION, VENDOR_TGPP),
-        AvpGenDef("aoc_information", AVP_TGPP_AOC_SUBSCRIPTION_INFORMATION, VENDOR_TGPP, type_class=AocInformation)
+        AvpGenDef("aoc_information", AVP_TGPP_AOC_INFORMATION, VENDOR_TGPP, type_class=AocInformation)
     )
 
 
